@@ -224,6 +224,36 @@ theorem bit_natCast (e : Int) (k : Nat) (hk : e = k) (h32 : k < 32) :
 theorem one_shl_lt (k : Nat) (h : k < 32) : 1 <<< k < W32 := by
   rw [Nat.one_shiftLeft]; exact Nat.pow_lt_pow_right (by decide) h
 
+/-- a shift by a non-negative signed count does not panic -/
+theorem shl_of_nonneg (a e : Int) (h : 0 ≤ e) : shl a e = .ok (ishl a e) := by
+  unfold shl; simp [Int.not_lt.mpr h]
+
+theorem shr_of_nonneg (a e : Int) (h : 0 ≤ e) : shr a e = .ok (ishr a e) := by
+  unfold shr; simp [Int.not_lt.mpr h]
+
+theorem natCast_bne_zero (n : Nat) : (((n : Int) != 0) : Bool) = (n != 0) := by
+  cases h : (n != 0) <;> simp_all
+
+/-- the range mask of `SetRange` (`int` arithmetic, then `uint32(mask)`) -/
+theorem rangeMask_cast (fb lb : Nat) (h1 : fb ≤ lb + 1) (eF eL : Int) (hF : eF = fb) (hL : eL = lb) :
+    wrap 32 (ishl 2 eL - ishl 1 eF) = (((2 <<< lb - 1 <<< fb) % W32 : Nat) : Int) := by
+  subst hF hL
+  have e2 : (2 : Int) = ((2 : Nat) : Int) := rfl
+  have e1 : (1 : Int) = ((1 : Nat) : Int) := rfl
+  rw [e2, e1, ishl_natCast, ishl_natCast]
+  have hle : 1 <<< fb ≤ 2 <<< lb := by
+    rw [Nat.one_shiftLeft, Nat.shiftLeft_eq, ← Nat.pow_succ']
+    exact Nat.pow_le_pow_right (by decide) h1
+  rw [← Int.natCast_sub hle, wrap_natCast]
+  rfl
+
+/-- the same computed in `uint32` (as in `IsRange`) -/
+theorem rangeMask_cast32 (fb lb : Nat) (h1 : fb ≤ lb + 1) (eF eL : Int) (hF : eF = fb) (hL : eL = lb) :
+    wrap 32 (wrap 32 (ishl 2 eL) - wrap 32 (ishl 1 eF)) = (((2 <<< lb - 1 <<< fb) % W32 : Nat) : Int) := by
+  rw [← rangeMask_cast fb lb h1 eF eL hF hL]
+  unfold wrap
+  exact (Int.sub_emod _ _ _).symm
+
 /-! ### checked reads / writes of the word slice -/
 
 theorem idx_words (ws : List Nat) (e : Int) (n : Nat) (h : e = n) :
